@@ -34,6 +34,8 @@ def run_rules(mod, model, tier):
         generic_rules(ctx)
     except AnchorError as e:
         ctx.anchor_error = str(e)
+    from .recognise import guard
+    guard(ctx)
     return ctx
 
 
